@@ -548,6 +548,28 @@ func nearMiss(text, old string, mode int) string {
 		return ""
 	}
 	var cand string
+	if mode == 3 {
+		// the "do not mangle" spelling of the same name: @"\01name"
+		if old[0] != '@' {
+			return ""
+		}
+		cand = old[:1] + "\"\\01" + old[1:] + "\""
+		if strings.Contains(text, cand) {
+			return ""
+		}
+		return cand
+	}
+	if mode == 4 {
+		// a leading underscore (what another platform's mangling would add)
+		if old[0] != '@' && old[0] != '$' {
+			return ""
+		}
+		cand = old[:1] + "_" + old[1:]
+		if countIdent(text, cand) > 0 {
+			return ""
+		}
+		return cand
+	}
 	if mode == 1 {
 		cand = old + "x"
 	} else {
@@ -589,12 +611,52 @@ func applyFaultNear(text string, s Site, cross, numeric bool, near int) string {
 	}
 }
 
+// decoyFor returns a small valid module that DEFINES the identifier a use-fault
+// redirects to ("" for faults that are not redirected uses, and for numeric
+// identifiers, which are positional). Parsed in the same process right before the
+// faulted text, it is what an earlier request left behind: nothing of it may
+// satisfy the undefined reference of the next parse.
+func decoyFor(text string, s Site, cross, numeric bool, near int) string {
+	if !strings.HasPrefix(s.Kind, "use:") {
+		return ""
+	}
+	faulted := applyFaultNear(text, s, cross, numeric, near)
+	name := ""
+	if d := len(faulted) - len(text); s.End+d >= s.Off && s.End+d <= len(faulted) {
+		name = faulted[s.Off : s.End+d]
+	}
+	if len(name) < 2 || isUnnamedIdent(name) {
+		return ""
+	}
+	switch name[0] {
+	case '@':
+		// as a function (with a block carrying the usual label names) for callee
+		// and blockaddress sites, as a global variable otherwise
+		if strings.Contains(s.Kind, "callee") || strings.Contains(s.Kind, "blockaddress") || strings.Contains(s.Kind, "function") {
+			return "define i32 " + name + "(i32 %x) {\nentry:\n  ret i32 %x\n}\n"
+		}
+		return name + " = global i32 0\n"
+	case '%':
+		bare := name[1:]
+		return name + " = type { i32 }\ndefine i32 @decoy(i32 " + name + ".v) {\n" + bare + ":\n  ret i32 " + name + ".v\n}\ndefine i32 @decoy2(i32 " + name + ") {\n  ret i32 " + name + "\n}\n"
+	case '$':
+		return name + " = comdat any\n@decoy = global i32 0, comdat(" + name + ")\n"
+	case '!':
+		if len(name) > 1 && name[1] >= '0' && name[1] <= '9' {
+			return name + " = !{i32 1}\n!decoy = !{" + name + "}\n"
+		}
+		return name + " = !{}\n"
+	}
+	return ""
+}
+
 type c05Outcome struct {
 	class, sig, detail string
 	skip               string
 	orders             int
 	nonIdentity        int64
 	doubt              bool
+	decoys             int
 }
 
 var llvmAs = func() string {
@@ -655,6 +717,21 @@ func c05Run(sc *C05Scenario) *c05Outcome {
 		simrt.SeamsOn(true, false)
 		var m *ir.Module
 		var err error
+		decoyed := false
+		if o%2 == 1 {
+			// Every other order: an earlier parse in the same process (pools and
+			// whatever else survives a parse are NOT reset in between) has defined the
+			// very name the fault refers to.
+			if decoy := decoyFor(text, sc.Site, sc.Cross, sc.Numeric, sc.Near); decoy != "" {
+				var dm *ir.Module
+				var derr error
+				protect(func() { simCall(func() { dm, derr = asm.ParseString("decoy.ll", decoy) }) })
+				decoyed = dm != nil && derr == nil
+				if decoyed {
+					out.decoys++
+				}
+			}
+		}
 		pan, msg := protect(func() { simCall(func() { m, err = asm.ParseString(sc.Module, faulted) }) })
 		st := simrt.Snapshot()
 		simrt.SeamsOn(false, false)
@@ -663,6 +740,9 @@ func c05Run(sc *C05Scenario) *c05Outcome {
 		order := "canonical order"
 		if o > 0 {
 			order = fmt.Sprintf("seeded order %d", o)
+		}
+		if decoyed {
+			order += ", right after a parse of another text that defines that name"
 		}
 		switch {
 		case pan:
@@ -741,7 +821,7 @@ func c05Search() {
 				sum.Skipped["sites not sampled in the quick tier"]++
 				continue
 			}
-			for variant := 0; variant < 5; variant++ {
+			for variant := 0; variant < 7; variant++ {
 				cross, numeric := variant == 1, variant == 2
 				near := 0
 				if variant >= 3 {
@@ -765,6 +845,7 @@ func c05Search() {
 				}
 				sum.Runs += int64(o.orders)
 				sum.Counters["faulted inputs"]++
+				sum.Counters["faulted parses that followed a parse defining the missing name"] += int64(o.decoys)
 				if cross {
 					sum.Counters["faulted inputs redirected to a name defined in another namespace"]++
 				}
